@@ -8,7 +8,7 @@ import numpy as np
 from hypothesis import strategies as st
 
 from .. import gen, oracle, sitesys
-from ..runner import Skip, Sub, Violation, gcall
+from ..runner import Raised, Skip, Sub, Violation, gcall
 
 PROPERTY = 'C11'
 LEVEL = 'exploration'
@@ -139,7 +139,15 @@ def run_states(case):
     want, _ = sitesys.expected_states(case)
     if (want == -2).any() or not (want[1:] != want[:-1]).any():
         raise Skip()
-    traj = sitesys.full_trajectory(case)
+    if case.get('decoy'):
+        # an earlier, unrelated analysis of the same shape whose objects are released before the real one is built
+        dc = dict(case, diff=np.array(case['diff'])[::-1].tolist())
+        dt_ = sitesys.full_trajectory(dc)
+        dtr = gcall(dt_.transitions_between_sites, sitesys.sites(case), 'Li', site_radius=float(case['radius']), site_inner_fraction=case['inner_fraction'], allow=(ValueError,))
+        if not isinstance(dtr, Raised):
+            gcall(dtr.radial_distribution, floating_specie='Li', max_dist=case['max_dist'], resolution=case['resolution'])
+        del dt_, dtr
+    traj = sitesys.full_trajectory(case, species_kind=case.get('species_kind', 'Species'))
     site_labels = case['sites']['labels']
     tr = gcall(traj.transitions_between_sites, sitesys.sites(case), 'Li', site_radius=float(case['radius']), site_inner_fraction=case['inner_fraction'])
     states = np.asarray(tr.states)
@@ -244,6 +252,8 @@ def species_cases(draw, tier):
 @st.composite
 def state_cases(draw, tier):
     c = draw(gen.hop_systems(tier=tier, framework=True, min_sites=2, max_sites=5, max_frames=10 if tier == 'quick' else 25, max_diff=3, radius_modes=('float',), min_labels=2))
+    c['decoy'] = draw(st.booleans())
+    c['species_kind'] = draw(st.sampled_from(['Species', 'Element', 'Species-mixed', 'Species-mixed']))
     return _rdf_params(draw, c)
 
 
